@@ -70,7 +70,7 @@ pub fn scenarios_of(property: &str) -> Vec<(&'static str, u64, u64)> {
 		"C16" => vec![("c16_history", 30_000, 1_000_000), ("c16_procs", 250, 8_000)],
 		"C18" => vec![
 			("c18_gc", 12_000, 600_000),
-			("c18_intern", 40_000, 1_000_000),
+			("c18_intern", 25_000, 1_000_000),
 			("c18_teardown_c07", 8_000, 400_000),
 			("c18_teardown_c16", 6_000, 300_000),
 		],
